@@ -10,7 +10,8 @@
      client/blb/mem_curator_talker.go      GetTracts (clipping), ExtendBlob/AckExtendBlob (append tracts)
    All byte strings are run-length encoded (tracts are 8 MiB): a [runs] is a list of (length, value).
    [tl] is the tract length (instantiated with the regenerated constant in [run_case]); theorems hold for every tl > 0.
-   A [variant] selects the code as found (fix16 = fix17 = false) or with the proposed repairs F16 / F17. *)
+   A [variant] selects the code as found (all flags false) or with the repairs F16 / F17 (committed) and
+   F17b (a failed ReadaheadBlob.Seek must not discard the buffer; proposed). *)
 From Coq Require Import List NArith ZArith Bool.
 Import ListNotations.
 Open Scope N_scope.
@@ -58,9 +59,11 @@ Definition E_EOF : N := 1.      (* io.EOF *)
 Definition E_INVAL : N := 2.    (* core.ErrInvalidArgument *)
 Definition E_OTHER : N := 3.    (* any other error (Seek's fmt.Errorf) *)
 
-Record variant := { fix16 : bool; fix17 : bool }.
-Definition as_found : variant := {| fix16 := false; fix17 := false |}.
-Definition repaired : variant := {| fix16 := true; fix17 := true |}.
+Record variant := { fix16 : bool; fix17 : bool; fix17b : bool }.
+Definition as_found : variant := {| fix16 := false; fix17 := false; fix17b := false |}.
+(* the tree with the two committed fixes *)
+Definition head_tree : variant := {| fix16 := true; fix17 := true; fix17b := false |}.
+Definition repaired : variant := {| fix16 := true; fix17 := true; fix17b := true |}.
 
 (* ---------- mem_tractserver_talker.go ---------- *)
 (* Write: grow with zeros if needed, then overwrite [off, off+len b) *)
@@ -260,10 +263,15 @@ Definition ra_read (v : variant) (tl : N) (st : cstate) (k : N) : (N * N * runs)
         else deliver (set_buf st1 d e)
     else deliver st.
 
-(* ReadaheadBlob.Seek: Reset (discard buffer and sticky error), then Blob.Seek *)
+(* ReadaheadBlob.Seek. As found: Reset (discard buffer and sticky error), then Blob.Seek - also when the Seek
+   then fails. With F17: SEEK_CUR is taken relative to Blob.offset - Buffered(). With F17b: Blob.Seek first, Reset
+   only if it succeeded. *)
 Definition ra_seek (v : variant) (tl : N) (st : cstate) (off whence : Z) : (Z * N) * cstate :=
   let off' := if fix17 v && (whence =? 1)%Z then (off - Z.of_N (rlen (rbuf st)))%Z else off in
-  blob_seek tl (set_buf st [] E_OK) off' whence.
+  if fix17b v then
+    let '((r, e), st1) := blob_seek tl st off' whence in
+    ((r, e), if e =? E_OK then set_buf st1 [] E_OK else st1)
+  else blob_seek tl (set_buf st [] E_OK) off' whence.
 
 (* ---------- operations and uniform results ---------- *)
 Inductive op :=
@@ -386,7 +394,7 @@ Definition direct_op (o : op) : bool :=
   match o with ORaRead _ | ORaSeek _ _ | ORaLen => false | _ => true end.
 
 (* ---------- wire format ---------- *)
-(* ops:  0 fix16 fix17 cacheOn            (first line of a case: which code variant, initial cache flag)
+(* ops:  0 fix16 fix17 cacheOn [fix17b]   (first line of a case: which code variant, initial cache flag)
          1 off nruns (len val)...          WriteAt        < n err pos rpcs
          2 off k                           ReadAt         < n err pos rpcs nruns (len val)...
          3 nruns (len val)...              Write          < n err pos rpcs
